@@ -231,6 +231,21 @@ theorem volume_trace_is_integral_partial (pi : Rat) (t : Tank) (c : List (Rat ×
     simp only [level] at *
     linarith
 
+/-- volume curve with the extrapolating lookup (the code since 53f21792): stored volume change = integral of the reported net
+inflow along ANY sequence of accepted steps — the "inside the curve" hypothesis of `volume_trace_is_integral_partial` is gone -/
+theorem volume_trace_is_integral (pi : Rat) (t : Tank) (c : List (Rat × Rat)) (hc : t.curve = some c)
+    (hx : t.extrap = true) (hI : IncrCurve c) (h2 : curveLoX c < curveHiX c) (h0 : Rat) (steps : List Step) :
+    getVolume pi t (level t (trace pi t h0 steps)) - getVolume pi t (level t h0) = inflow steps := by
+  induction steps generalizing h0 with
+  | nil => simp [trace, inflow]
+  | cons s rest ih =>
+    have e := volcurve_euler_exact_extrap pi t c hc hx hI h2 h0 h0 s.q s.dt
+    have ih' := ih (stepHead pi t h0 s)
+    simp only [trace, List.foldl_cons, inflow, List.map_cons, List.sum_cons] at *
+    rw [stepHead_eq] at *
+    simp only [level] at *
+    linarith
+
 /-! ### the level trace along the run -/
 
 open Wntr.TankRun in
@@ -271,6 +286,22 @@ theorem volume_trace_is_integral_run_partial (cfg : Cfg) (r2 r1 : TankRun.Row) (
   rw [ht] at a; rw [e1] at b; rw [eq] at d
   cases a; cases b; cases d
   rw [e, volcurve_euler_exact cfg.pi t c hc hx hI h1 h q _ hin0 hin1]
+  simp [level]
+
+open Wntr.TankRun in
+/-- consecutive reported rows of the run, volume-curve tank with the extrapolating lookup: full strength, no hypothesis on
+where the step ends -/
+theorem volume_trace_is_integral_run (cfg : Cfg) (r2 r1 : TankRun.Row) (hF : Follows cfg r2 r1) (i : Nat) (t : Tank)
+    (c : List (Rat × Rat)) (ht : cfg.tanks[i]? = some t) (hc : t.curve = some c) (hx : t.extrap = true) (hI : IncrCurve c)
+    (h2c : curveLoX c < curveHiX c) (h1 q h2 : Rat)
+    (e1 : r1.heads[i]? = some h1) (eq : r1.demand[i]? = some q) (e2 : r2.heads[i]? = some h2) :
+    getVolume cfg.pi t (level t h2) - getVolume cfg.pi t (level t h1) = q * ((r2.time - r1.time : Int) : Rat) := by
+  obtain ⟨hs, hF⟩ := hF
+  rw [hF] at e2
+  obtain ⟨t', p, h, q', a, b, _, d, e⟩ := updHeads_get_inv _ _ _ _ _ _ _ _ e2
+  rw [ht] at a; rw [e1] at b; rw [eq] at d
+  cases a; cases b; cases d
+  rw [e, volcurve_euler_exact_extrap cfg.pi t c hc hx hI h2c h1 h q _]
   simp [level]
 
 /-! ### limits: the backtrack floor -/
